@@ -171,6 +171,16 @@ def post_get(ip, ctx, out):
                 acc = z3.If(hit, z3.If(have, MatMul(op, acc), op), acc)
                 have = z3.Or(have, hit)
             ip.prove('ctrl/get[%s]' % side, z3.Implies(z3.Not(none_expected), got_z == acc))
+        # "several controls added for the same step act in the order in which they were added", also when one was given by step number and
+        # the other by float time: the object does not record that order (ghost: which of the two was added first); with ONE float-time
+        # control landing on the step the required composition is  later @ earlier
+        ts_, ops_ = ctx['tvals'][side]
+        if len(ops_) == 1:
+            float_first = z3.Bool('ghost_float_time_control_was_added_first_' + side)
+            both = z3.And(h(step), hits[0])
+            req = z3.If(float_first, MatMul(g(step), ops_[0]), MatMul(ops_[0], g(step)))
+            ip.prove('ctrl/order-of-addition[step-and-float-time-at-one-step]', z3.Implies(both, got_z == req),
+                     {'side': side, 'the code composes': 'float-time first (pre) / step first (post), whatever the order of the add_single calls'})
 
 
 # ---- history: a look-up on one time grid must not influence a later look-up on another grid
@@ -298,6 +308,8 @@ def post_cd_schedule(ip, ctx, out):
 
 
 def replay_ctrl(ob):
+    if 'order-of-addition' in ob['name']:
+        return {'func': 'mixed_specification_order', 'inputs': {}}
     return {'func': 'control_order', 'inputs': {'obligation': ob['name'], 'model': ob.get('model')}}
 
 
